@@ -39,10 +39,13 @@ pub fn gen_program(rng: &mut Rng, cap: usize, dense: bool) -> Vec<String> {
 	p.push("state".into());
 	let pushes = 3 * cap + 5 + rng.below(10) as usize;
 	let obs_den = if dense || cap <= 8 { 1 } else { 6 };
-	for _ in 0..pushes {
+	for i in 0..pushes {
 		p.push(format!("push {}", label));
 		label += 1;
-		p.push("state".into());
+		// the full buffer after every push for small windows, periodically for large ones
+		if cap <= 64 || i % 37 == 0 || i + 1 == pushes {
+			p.push("state".into());
+		}
 		if rng.below(obs_den) == 0 {
 			for _ in 0..(1 + rng.below(3)) {
 				observer(rng, cap, &mut p);
@@ -64,9 +67,11 @@ pub fn gen_program(rng: &mut Rng, cap: usize, dense: bool) -> Vec<String> {
 		v
 	};
 	for &k in &ks {
-		if k <= PeriodType::MAX as usize {
+		if k <= gen_max() as usize {
 			p.push(format!("get {}", k));
-			p.push(format!("idx {}", k));
+			if !is_compat() || k < cap {
+				p.push(format!("idx {}", k));
+			}
 		}
 	}
 	let js: Vec<usize> = if cap <= 24 {
@@ -90,12 +95,16 @@ pub fn gen_program(rng: &mut Rng, cap: usize, dense: bool) -> Vec<String> {
 }
 
 fn observer(rng: &mut Rng, cap: usize, p: &mut Vec<String>) {
-	let max = PeriodType::MAX as u64;
+	let max = gen_max();
 	match rng.below(10) {
 		0 => p.push("newest".into()),
 		1 => p.push("oldest".into()),
 		2 | 3 => p.push(format!("get {}", rng.below(cap as u64 + 3).min(max))),
-		4 => p.push(format!("idx {}", rng.below(cap as u64 + 2).min(max))),
+		4 => {
+			// the property compares builds only on programs the default build does not panic on
+			let k = if is_compat() { rng.below(cap.max(1) as u64) } else { rng.below(cap as u64 + 2).min(max) };
+			p.push(format!("idx {}", k))
+		}
 		5 | 6 => p.push(format!("iter {}", rng.below(cap as u64 + 2))),
 		7 | 8 => p.push(format!("iterrev {}", rng.below(cap as u64 + 2))),
 		_ => {
@@ -112,8 +121,9 @@ fn observer(rng: &mut Rng, cap: usize, p: &mut Vec<String>) {
 /// adversarial serialized forms
 pub fn gen_de_program(rng: &mut Rng) -> Vec<String> {
 	let mut p = Vec::new();
-	let max = PeriodType::MAX as usize;
-	let lens = [0usize, 1, 2, 5, max - 2, max - 1, max, max + 1, max + 45];
+	let max = gen_max() as usize;
+	let small = max <= 255;
+	let lens: Vec<usize> = if small { vec![0, 1, 2, 5, max - 2, max - 1, max, max + 1, max + 45] } else { vec![0, 1, 2, 5, 254, 255, 256, 300] };
 	for &len in &lens {
 		let idxs: Vec<i64> = vec![
 			0,
@@ -133,6 +143,15 @@ pub fn gen_de_program(rng: &mut Rng) -> Vec<String> {
 			p.push("state".into());
 			p.push("iter 0".into());
 		}
+	}
+	if !small && max <= 70_000 {
+		// the size limits of a wide PeriodType: only the accept/reject decision (no follow-up on 65k-element windows)
+		for len in [max - 1, max, max + 1] {
+			for idx in [0i64, len as i64 - 1, len as i64] {
+				p.push(format!("de {} {}", len, idx));
+			}
+		}
+		p.push("new 3 7".into());
 	}
 	p.push("debad 0".into());
 	p.push("debad 1".into());
@@ -327,18 +346,24 @@ pub fn run_program(out: &mut Out, id: u64, prog: &[String]) {
 
 pub fn suite(out: &mut Out, seed: u64, thorough: bool) {
 	let mut rng = Rng::new(seed);
-	let max = PeriodType::MAX as usize;
+	let max = gen_max() as usize;
 	let mut id = 0u64;
-	let caps: Vec<usize> = if max == 255 {
+	let caps: Vec<usize> = if max <= 255 {
 		(0..=max).collect()
 	} else {
 		let mut v: Vec<usize> = (0..=40).collect();
-		v.extend([255, 256, 257, 1000, 4095, 4096]);
+		v.extend([255, 256, 257, 300]);
+		if thorough {
+			v.extend([1000, 4096]);
+		}
 		v
 	};
 	let rounds = if thorough { 6 } else { 1 };
 	for round in 0..rounds {
 		for &cap in &caps {
+			if is_compat() && cap == 0 {
+				continue;
+			}
 			let mut r = rng.fork((round * 1000 + cap) as u64);
 			let prog = gen_program(&mut r, cap, thorough && cap <= 64);
 			if id < 3 || cap == 3 {
@@ -348,6 +373,9 @@ pub fn suite(out: &mut Out, seed: u64, thorough: bool) {
 			run_program(out, id, &prog);
 			id += 1;
 		}
+	}
+	if is_compat() {
+		return;
 	}
 	let prog = gen_de_program(&mut rng);
 	out.count("programs");
